@@ -291,6 +291,79 @@ def rule_C(ck, units):
               '' if ok else 'own_data is cleared in %s although the object does not take over existing arrays there (no ptr / col / val member is set from borrowed storage): its arrays are never freed' % f.q)
 
 
+def rule_C2(ck, units, control):
+    """own_data = true hands the three arrays to delete[] (free_data, destructor).  The flag may be raised only for arrays the object has
+    allocated itself: on every path to the assignment, ptr, col and val of that object were set from `new[]` (directly or through set_size /
+    set_nonzeros) in the same function.  Today nothing in the library raises the flag outside constructors' initialiser lists (which
+    start from null pointers); the rule is kept alive by a positive control."""
+    ck.rule('C.own-only-allocated', 'own_data = true is assigned only after ptr, col and val of the same object were allocated (new[] / set_size / set_nonzeros) on every path to the '
+                                    'assignment in that function: borrowed (zero-copy) arrays never become the library\'s to free', 0)
+    found_control = False
+    seen = set()
+    for u in list(units.values()) + [control]:
+        an_ = Analyzer([u])
+        for f in u.funcs:
+            if f.cfg is None or not (f.rel().startswith('amgcl/') or f.q.startswith('verif_control::')):
+                continue
+            sites = [n for n in f.nodes.values() if n['k'] == 'bin' and n['op'] == '=' and unwrap(n['x'])['k'] == 'mem' and unwrap(n['x'])['n'] == 'own_data'
+                     and unwrap(n['y']) is not None and unwrap(n['y'])['k'] == 'lit' and unwrap(n['y'])['v'] == 'true']
+            if not sites or (f.q, f.line) in seen:
+                continue
+            seen.add((f.q, f.line))
+
+            def root(e):
+                return an_.root_of_expr(f, e['b']) if e.get('b') is not None else ('this',)
+
+            def step(n, facts, want):
+                """facts: set of (object root, member) allocated so far"""
+                for x in walk(n):
+                    if x['k'] == 'bin' and x['op'] == '=' and unwrap(x['x'])['k'] == 'mem' and unwrap(x['x'])['n'] in ('ptr', 'col', 'val'):
+                        r, y = root(unwrap(x['x'])), unwrap(x['y'])
+                        if y is not None and y['k'] == 'new':
+                            facts = facts | {(r, unwrap(x['x'])['n'])}
+                        else:
+                            facts = frozenset(k for k in facts if k != (r, unwrap(x['x'])['n']))
+                    if x['k'] == 'call' and x.get('m') in ('set_size', 'set_nonzeros'):
+                        r = an_.root_of_expr(f, x['obj']) if x.get('obj') is not None else ('this',)
+                        facts = facts | ({(r, 'ptr')} if x['m'] == 'set_size' else {(r, 'col'), (r, 'val')})
+                    if x['k'] == 'call' and x.get('m') == 'free_data':
+                        r = an_.root_of_expr(f, x['obj']) if x.get('obj') is not None else ('this',)
+                        facts = frozenset(k for k in facts if k[0] != r)
+                    if x is want:
+                        return facts, True
+                return facts, False
+
+            cfg = f.cfg
+
+            def transfer(b, st):
+                for e in cfg.elements(b):
+                    st, _ = step(e, st, None)
+                return st
+            IN, OUT = cfg.forward(frozenset(), transfer)
+            for site in sites:
+                res = None
+                for b in IN:
+                    st = IN[b]
+                    for e in cfg.elements(b):
+                        st, hit = step(e, st, site)
+                        if hit:
+                            res = st
+                            break
+                    if res is not None:
+                        break
+                r = root(unwrap(site['x']))
+                missing = [m for m in ('ptr', 'col', 'val') if res is None or (r, m) not in res]
+                if f.q.startswith('verif_control::'):
+                    found_control = found_control or bool(missing)
+                    continue
+                ck.ob('C.own-only-allocated', '%s|%s' % (f.q, f.where(site)), f.where(site), not missing,
+                      '' if not missing else 'own_data is set at %s although %s of that matrix %s not allocated in %s on every path to it: arrays the matrix may have borrowed '
+                                             '(zero-copy) or already released are handed to delete[] by the next free_data() / destructor' % (
+                                                 f.where(site), ', '.join(missing), 'was' if len(missing) == 1 else 'were', f.q.split('::')[-1]))
+    if not found_control:
+        ck.brk('C.own-only-allocated: the positive control verif_control::adopt (tus/controls.cpp) was not reported - the rule is blind')
+
+
 def _member_elem_writes(f):
     """assignments  M(i, j) = ..  /  M[i] = ..  to a data member M of *this"""
     out = []
@@ -679,6 +752,7 @@ def main(tier):
     cu = ir.run_units([dict(name='controls', src=os.path.join(T, 'controls.cpp'))], 'C17c')
     rule_F(ck, units, cu['controls'])
     rule_G(ck, cu['controls'])
+    rule_C2(ck, units, cu['controls'])
     rule_H(ck, units)
     rule_I(ck, units)
     rule_J(ck, units)
